@@ -153,7 +153,7 @@ impl FromStr for HitObjectType {
     type Err = ParseHitObjectTypeError;
 
     fn from_str(s: &str) -> Result<Self, Self::Err> {
-        s.parse().map(Self).map_err(ParseHitObjectTypeError)
+        s.trim().parse().map(Self).map_err(ParseHitObjectTypeError)
     }
 }
 
